@@ -886,19 +886,34 @@ func ruleLexCommentNewline(c *Ctx, r *R) {
 	}
 	_ = isScannerResult
 	ok := false
-	for _, b := range scan.Blocks {
-		for _, ins := range b.Instrs {
-			st, isStore := ins.(*ssa.Store)
-			if !isStore || !isFieldAddr(st.Addr, "parser", "implicitSemicolon") {
-				continue
+	// in scan itself or in a helper that only scan calls (the comment arm extracted into a method)
+	family := []*ssa.Function{scan}
+	for _, fn := range c.AllSrcFuncs("parser") {
+		if fn != scan && fn.Parent() == nil && c.partOf(fn, "scan", 0) {
+			isScanner := false
+			for _, s := range scanners {
+				isScanner = isScanner || s == fn
 			}
-			if k, isK := st.Val.(*ssa.Const); !isK || k.Value == nil || k.Value.ExactString() != "true" {
-				continue
+			if !isScanner {
+				family = append(family, fn)
 			}
-			// some dominating branch tests a value derived from a comment scanner's result
-			for d := b; d != nil; d = d.Idom() {
-				if iff, isIf := d.Instrs[len(d.Instrs)-1].(*ssa.If); isIf && d != b && dep(iff.Cond, 0) {
-					ok = true
+		}
+	}
+	for _, fam := range family {
+		for _, b := range fam.Blocks {
+			for _, ins := range b.Instrs {
+				st, isStore := ins.(*ssa.Store)
+				if !isStore || !isFieldAddr(st.Addr, "parser", "implicitSemicolon") {
+					continue
+				}
+				if k, isK := st.Val.(*ssa.Const); !isK || k.Value == nil || k.Value.ExactString() != "true" {
+					continue
+				}
+				// some dominating branch tests a value derived from a comment scanner's result
+				for d := b; d != nil; d = d.Idom() {
+					if iff, isIf := d.Instrs[len(d.Instrs)-1].(*ssa.If); isIf && d != b && dep(iff.Cond, 0) {
+						ok = true
+					}
 				}
 			}
 		}
